@@ -40,8 +40,22 @@ func ParseSps(payload []byte, ctx *Context) error {
 	}
 	Log.Debugf("sps=%+v", sps)
 
-	ctx.Width = (sps.PicWidthInMbsMinusOne+1)*16 - (sps.FrameCropLeftOffset+sps.FrameCropRightOffset)*2
-	ctx.Height = (2-uint32(sps.FrameMbsOnlyFlag))*(sps.PicHeightInMapUnitsMinusOne+1)*16 - (sps.FrameCropTopOffset+sps.FrameCropBottomOffset)*2
+	// ITU-T H.264 7.4.2.1.1: 裁剪偏移的单位(CropUnitX, CropUnitY)取决于ChromaArrayType和frame_mbs_only_flag，并不总是2
+	chromaArrayType := sps.ChromaFormatIdc
+	if sps.ResidualColorTransformFlag == 1 { // separate_colour_plane_flag
+		chromaArrayType = 0
+	}
+	subWidthC, subHeightC := uint32(1), uint32(1)
+	switch chromaArrayType {
+	case 1:
+		subWidthC, subHeightC = 2, 2
+	case 2:
+		subWidthC, subHeightC = 2, 1
+	}
+	cropUnitX := subWidthC
+	cropUnitY := subHeightC * (2 - uint32(sps.FrameMbsOnlyFlag))
+	ctx.Width = (sps.PicWidthInMbsMinusOne+1)*16 - (sps.FrameCropLeftOffset+sps.FrameCropRightOffset)*cropUnitX
+	ctx.Height = (2-uint32(sps.FrameMbsOnlyFlag))*(sps.PicHeightInMapUnitsMinusOne+1)*16 - (sps.FrameCropTopOffset+sps.FrameCropBottomOffset)*cropUnitY
 
 	ctx.Sps = sps
 	return nil
